@@ -16,7 +16,9 @@ RULE = ("one case = one classifier fitted once on a generated tiny problem (8-14
         "numeric strings whose sorted order differs from first appearance, class sizes balanced or "
         "skewed, three noise levels, random_state over ints (and None for forests), y as array or "
         "Series), evaluated on 5 fresh instances: BOSSEnsemble, ContractableBOSS, IndividualBOSS, "
-        "MUSE, ColumnEnsembleClassifier (2-3 members of different kinds on their own columns), "
+        "MUSE, ColumnEnsembleClassifier (2-3 members of different kinds on their own columns; extra cases "
+        "whose estimators list contains a 'drop' entry, an entry without columns, an unused column with "
+        "remainder='drop', or a remainder estimator), "
         "TimeSeriesForestClassifier, RandomIntervalSpectralForest, SupervisedTimeSeriesForest, "
         "TimeSeriesForestRegressor; extra SupervisedTimeSeriesForest problems that are small and balanced so "
         "that bootstrap bags miss classes (trees with fewer classes than the forest), three of them "
@@ -195,6 +197,21 @@ def gen_cases(rng, tier):
                       "n_test": 3, "m": rng.randint(18, 24), "noise": rng.choice([0.3, 1.0, 2.5]),
                       "rs": rng.choice([0, 1, 7, 42, 123]), "ycont": rng.choice(["array", "series"]),
                       "unseen_test_label": rng.random() < 0.25})
+    # column ensembles whose `estimators` list has entries that are never fitted ('drop', an empty
+    # column selection), columns nobody uses (remainder='drop') or a remainder estimator: the
+    # probabilities are the mean over the FITTED members, whatever the length of the list
+    for i in range(14 if tier == "quick" else 70):
+        k = rng.choice([2, 3, 3, 4])
+        n = rng.randint(max(8, 2 * k), 12)
+        mem = rng.choice([["iboss", "tsf"], ["tsf", "iboss"], ["iboss", "tsf", "iboss"], ["tsf", "tsf"]])
+        spec = [{"drop": rng.randint(0, 5)}, {"empty": rng.randint(0, 5)}, {"extra_col": True},
+                {"remainder": rng.choice(["iboss", "tsf"])}, {"drop": rng.randint(0, 5), "empty": rng.randint(0, 5)},
+                {"drop": rng.randint(0, 5), "remainder": "iboss"}, {"drop": rng.randint(0, 5), "extra_col": True}][i % 7]
+        cases.append({"kind": "clf", "clf": "colens", "seed": rng.randint(0, 10 ** 6), "k": k,
+                      "labelset": rng.choice(sorted(LABELSETS)), "sizes": _sizes(rng, k, n), "n_test": 3,
+                      "m": rng.randint(18, 22), "noise": rng.choice([0.3, 1.0, 2.5]),
+                      "rs": rng.choice([0, 1, 7, 42, 123]), "ycont": rng.choice(["array", "series"]),
+                      "unseen_test_label": rng.random() < 0.25, "members": mem, "spec": spec})
     # ContractableBOSS weights a member by (leave-one-out train accuracy)^4 measured on a 70 %
     # subsample: with two instances per class most left-out instances have no neighbour of their own
     # class, so members with accuracy 0 - and ensembles made of such members only - occur
@@ -420,12 +437,26 @@ def _run_clf(case):
         from sktime.classification.compose._column_ensemble import (ColumnEnsembleClassifier,
                                                                     _get_column)
         mem = case["members"]
-        Xtr, ytr, Xte, yte = _problem(case, ncols=len(mem))
-        clf = ColumnEnsembleClassifier([("m%d" % j, _make(n, (case["rs"] or 0) + j, case["m"]), [j])
-                                        for j, n in enumerate(mem)])
+        spec = case.get("spec") or {}
+        # entries of the estimators list that are never fitted: the documented 'drop' specifier and an
+        # entry whose column selection is empty; columns nobody uses (remainder='drop') or that go to
+        # a remainder estimator
+        extra = 1 if (spec.get("extra_col") or spec.get("remainder")) else 0
+        Xtr, ytr, Xte, yte = _problem(case, ncols=len(mem) + extra)
+        ests = [("m%d" % j, _make(n, (case["rs"] or 0) + j, case["m"]), [j]) for j, n in enumerate(mem)]
+        if spec.get("drop") is not None:
+            ests.insert(spec["drop"] % (len(ests) + 1), ("dropped", "drop", [spec["drop"] % len(mem)]))
+        if spec.get("empty") is not None:
+            ests.insert(spec["empty"] % (len(ests) + 1), ("nocols", _make("iboss", 77, case["m"]), []))
+        rem = _make(spec["remainder"], (case["rs"] or 0) + 11, case["m"]) if spec.get("remainder") else "drop"
+        clf = ColumnEnsembleClassifier(ests, remainder=rem)
         _fit(clf, Xtr, _ycont(ytr, case["ycont"]))
         kind = "rows"
+        # the FITTED members, with the columns each was fitted on
         members = [np.asarray(e.predict_proba(_get_column(Xte, col))) for _, e, col in clf.estimators_]
+        colens_info = {"n_spec": len(ests), "n_fitted": len(clf.estimators_),
+                       "want_fitted": len(mem) + (1 if spec.get("remainder") else 0),
+                       "fitted_cols": [[int(c) for c in col] for _, _, col in clf.estimators_]}
     else:
         Xtr, ytr, Xte, yte = _problem(case)
         clf = _make(name, case["rs"], case["m"])
@@ -459,6 +490,8 @@ def _run_clf(case):
            "tie": "near" if name == "muse" else "any"}
     if pred_err:
         out["pred_err"] = pred_err
+    if name == "colens":
+        out["colens"] = colens_info
     if kind == "votes":
         out["members"] = [[_ratio(w), [_lab(v) for v in votes]] for w, votes in members]
     elif kind == "trees":
@@ -603,7 +636,18 @@ def _clf_oracle(case, out):
                 extra += "; predict raises %s" % out["pred_err"]
             return "proba-range: instance %d row %s%s" % (i, [v if v is not None else "nan" for v in row], extra)
         if abs(sum(row) - 1) > 1e-9:
-            return "proba-row-sum: instance %d row %s sums to %r" % (i, row, sum(row))
+            extra = ""
+            if out.get("colens"):
+                ci = out["colens"]
+                rows_i = [[_f(v) for v in m[i]] for m in out["members"] if i < len(m)]
+                if rows_i and all(len(r) == len(row) and None not in r for r in rows_i):
+                    exp = [sum(r[j] for r in rows_i) / len(rows_i) for j in range(len(row))]
+                    if any(abs(a - b) > 1e-9 for a, b in zip(exp, row)):
+                        return ("column-ensemble-not-mean-of-fitted-members: instance %d got %s (sums to %r), the "
+                                "%d fitted members (of %d entries in `estimators`) give %s" % (
+                                    i, row, sum(row), ci["n_fitted"], ci["n_spec"], exp))
+                extra = " (%d fitted members, %d entries in `estimators`)" % (ci["n_fitted"], ci["n_spec"])
+            return "proba-row-sum: instance %d row %s sums to %r%s" % (i, row, sum(row), extra)
     # the combination of the members' own outputs
     if out["mkind"] == "votes":
         ws = [_f(w) for w, _ in out["members"]]
@@ -640,12 +684,22 @@ def _clf_oracle(case, out):
                         "(classes %s) returned %s, expected %s" % (
                             t, [c[1] for c in out["members"][t][0]], got[:1], placed[t][:1]))
     else:
+        ci = out.get("colens")
+        if ci and (ci["n_fitted"] != ci["want_fitted"] or ci["n_fitted"] != len(out["members"])):
+            return ("column-ensemble-fitted-members: %d members fitted, expected %d (of %d entries in "
+                    "`estimators`; 'drop' entries and entries without columns are not members)" % (
+                        ci["n_fitted"], ci["want_fitted"], ci["n_spec"]))
         if any(s != [n, len(want)] for s in out["member_shapes"]):
             return "member-proba-shape: %s" % (out["member_shapes"],)
         for i in range(n):
             rows = [[_f(v) for v in m[i]] for m in out["members"]]
             exp = [sum(r[j] for r in rows) / len(rows) for j in range(len(want))]
             if any(abs(a - b) > 1e-9 for a, b in zip(exp, P[i])):
+                if out.get("colens"):
+                    ci = out["colens"]
+                    return ("column-ensemble-not-mean-of-fitted-members: instance %d got %s, the %d fitted "
+                            "members (of %d entries in `estimators`) give %s" % (
+                                i, P[i], ci["n_fitted"], ci["n_spec"], exp))
                 return "proba-not-mean-of-members: instance %d got %s, members give %s" % (i, P[i], exp)
     # predictions
     if out.get("pred_err"):
@@ -922,6 +976,10 @@ def distribution(cases, results):
                 d["cboss-ensembles-of-zero-accuracy-members-only"] += 1
             elif any((w or 0) < 1e-6 for w in ws):
                 d["cboss-ensembles-with-a-zero-accuracy-member"] += 1
+        if o.get("colens") and c.get("spec"):
+            d["colens-with-" + "+".join(sorted(c["spec"]))] += 1
+            if o["colens"]["n_fitted"] < o["colens"]["n_spec"]:
+                d["colens-with-fewer-fitted-members-than-entries"] += 1
         if o.get("mkind") == "trees":
             short = sum(1 for tc, _ in o["members"] if len(tc) < len(o["classes"]))
             d["forests-with-a-tree-that-missed-a-class" if short else "forests-all-trees-saw-all-classes"] += 1
